@@ -148,6 +148,12 @@ def whileloop(ctx, ex, s, p):
         raise Unsupported("while loop", s)
     k = ctx.while_ordinals.get((s.lineno, s.col_offset))
     invname = ctx.post_invariants.get(k)
+    if invname is None and k is None and len(ctx.post_invariants) == 1:
+        # the loop sits in a helper that was inlined (moved out of the function under contract): the contract's only invariant applies if
+        # the names it speaks about exist here; its base case and preservation are checked as everywhere
+        cand = list(ctx.post_invariants.values())[0]
+        if all(a.arg in p.env for a in ctx.specs[cand].args.args):
+            invname = cand
     if invname is None:
         raise Unsupported("while loop %s has no invariant in the contract" % k, s)
     invdef = ctx.specs[invname]
